@@ -70,8 +70,11 @@ import Pog.Lemmas.AliasCover
                                            (counterexample + `generate_ok_partial`)
     default_enum_expr / enum_default_expr_by_value (F53 repaired)   an enum default is rendered as a lookup BY VALUE, `Level("N/A")`, `Code(1)`;
                                            the `enum_default_member_*` theorems record why the member NAME cannot be derived by the old rule
+    no_field_named_field (F5 repaired)     no attribute of a generated class is called `field`: a property of that name is emitted as `field_`
+                                           (wire key kept in `Meta`), so no default rebinds `dataclasses.field` for the factory defaults after it;
+                                           `field_shadow_former_witness` = the former witness, `field_property_keeps_wire_key`
 -/
--- INDEX Pog.DcProps: rendered_defaults_last, render_order_defaults_last, render_order_is_identity, field_line_shape, generate_never_diverges, generate_value_error_iff, generate_default_factory_counterexample, generate_ok_partial, enum_default_member_counterexample, enum_default_expr_by_value, default_enum_expr, default_enum_str_expr, enum_default_member_exact, enum_default_member_partial, enum_default_member_in_enum_partial, enum_default_wrong_member_counterexample, int_enum_default_never_identifier
+-- INDEX Pog.DcProps: rendered_defaults_last, render_order_defaults_last, render_order_is_identity, field_line_shape, generate_never_diverges, generate_value_error_iff, generate_default_factory_counterexample, generate_ok_partial, enum_default_member_counterexample, enum_default_expr_by_value, default_enum_expr, default_enum_str_expr, enum_default_member_exact, enum_default_member_partial, enum_default_member_in_enum_partial, enum_default_wrong_member_counterexample, int_enum_default_never_identifier, no_field_named_field, field_property_keeps_wire_key, field_shadow_former_witness
 /-
   C01, the argument list of an endpoint method (Pog/Model/Loader.lean `mergeParams`; proved in Pog/Props/Loader.lean, claimed here):
     parameters_no_duplicate_key            F4 repaired: a parameter declared at path level AND at operation level (same name, same `in`)
